@@ -92,15 +92,25 @@ int main(int argc, char** argv) {
   }
   // timestamps
   {
-    vector<uint64_t> T;
+    // groups of neighbouring instants: a group stays in one process and is formatted in ascending and then in
+    // descending order, so that a result that depends on the previous call (a cached day or second) shows
+    vector<vector<uint64_t>> G;
     const uint64_t DAY = 86400ULL * S;
     int ndays = quick ? 500 : 4000;
     for (int i = 0; i < ndays; i++) {
       uint64_t day = r.below(2932897);  // 1970-01-01 .. 9999-12-31
-      for (int64_t d : {-1, 0, 1}) T.push_back(day * DAY + d);
-      T.push_back(day * DAY + r.below(DAY));
-      T.push_back(day * DAY + 59 * S + 999999);
-      T.push_back(day * DAY + 86399 * S + r.below(S));
+      vector<uint64_t> g;
+      if (day) g.push_back(day * DAY - 1);
+      g.push_back(day * DAY);
+      g.push_back(day * DAY + 1);
+      g.push_back(day * DAY + 59 * S + 999999);
+      g.push_back(day * DAY + 60 * S);
+      g.push_back(day * DAY + r.below(DAY));
+      g.push_back(day * DAY + 86399 * S + r.below(S));
+      g.push_back((day + 1) * DAY);
+      g.push_back((day + 1) * DAY + r.below(S));
+      sort(g.begin(), g.end());
+      G.push_back(g);
     }
     for (int y = 1972; y <= 2400; y += 4) {  // leap days and the days around century boundaries
       // days since epoch of Feb 28 of year y computed by timegm
@@ -109,14 +119,21 @@ int main(int argc, char** argv) {
       tmv.tm_mon = 1;
       tmv.tm_mday = 28;
       uint64_t t0 = (uint64_t)timegm(&tmv) * S;
-      for (int k = 0; k < 3; k++) T.push_back(t0 + k * DAY + r.below(DAY));
+      vector<uint64_t> g;
+      for (int k = 0; k < 3; k++) g.push_back(t0 + k * DAY + r.below(DAY));
+      G.push_back(g);
     }
-    T.push_back(0);
-    T.push_back(253402300799ULL * S + 999999);
+    G.push_back({0});
+    G.push_back({253402300799ULL * S + 999999});
+    vector<uint64_t> T;
+    for (size_t gi = 0; gi < G.size(); gi++) {
+      if ((int)(gi % nshards) != shard) continue;
+      for (uint64_t t : G[gi]) T.push_back(t);
+      for (size_t k = G[gi].size(); k-- > 0;) T.push_back(G[gi][k]);
+    }
     string ts = "[", days = "[", secs = "[", us = "[", text = "[";
     size_t n = 0;
     for (size_t i = 0; i < T.size(); i++) {
-      if ((int)(i % nshards) != shard) continue;
       uint64_t t = T[i];
       if (t >= 253402300800ULL * S) continue;
       if (n) {
